@@ -9,8 +9,8 @@ from . import instr_gen as ig
 from . import C16 as c16
 from . import C11 as c11
 
-RULE = ("charts with 1-3 tracks (incl. tracks whose note lines are out of tick order, note-less tracks) and a twin parsed from the same text; sequences of 6-14 read-only operations: "
-        "chart[instrument] for present and absent instruments, notes_per_second in every argument form incl. failing ones (absent instrument, present instrument with absent difficulty, "
+RULE = ("charts with 1-4 tracks (incl. tracks whose note lines are out of tick order, note-less tracks, second-player parts with a [Song] Player2 field, tempo anchors) and a twin parsed from the same text; sequences of 6-14 read-only operations: "
+        "chart[instrument] for each of the ten instruments, present or absent, notes_per_second in every argument form incl. failing ones (absent instrument, present instrument with absent difficulty, "
         "note-less track, non-positive interval), tick-to-time queries with and without hints (incl. rejected ones), str/repr of the chart and of every event, chart == twin, hash of every "
         "event, every derived attribute (longest_sustain, end_tick, last_note_end_timestamp, header_tag), and attribute assignment / deletion on every field of every event and track class; "
         "after EVERY operation the full rendering of the chart, the key set of instrument_tracks and twin equality are recorded. Non-trivial: every sequence (each contains a failing rate "
@@ -177,7 +177,12 @@ def gen1(rng):
         tracks.append(("HardSingle", []))
     if rng.random() < 0.4:
         tracks.append(("ExpertDrums", ["0 = N 0 0", "192 = N 1 10"]))
-    text = chart_text(res=R, sync=["0 = TS 4", "0 = B 120000"] + (["384 = B 60000"] if rng.random() < 0.5 and text_flags(lines) == "sorted" else []),
+    if rng.random() < 0.4:
+        # second-player parts, with the [Song] Player2 field saying which one the chart is meant to have
+        tracks.append((rng.choice(["ExpertDoubleBass", "HardDoubleBass", "ExpertDoubleRhythm", "MediumDoubleGuitar"]), ["0 = N 2 0", "96 = N 3 48", "96 = S 2 10"]))
+    song = rng.choice([None, None, ["Player2 = rhythm"], ["Player2 = bass"], ["Player2 = rhythm", 'Name = "n"', "Offset = 2"]])
+    anchors = rng.choice([[], [], ["0 = A 0"], ["10 = A 1000", "384 = A 2000000"]])
+    text = chart_text(res=R, song=song, sync=["0 = TS 4", "0 = B 120000"] + (["384 = B 60000"] if rng.random() < 0.5 and text_flags(lines) == "sorted" else []) + anchors,
                       events=['0 = E "section a"', '96 = E "lyric b"'], tracks=tracks)
     last = groups[-1]["tick"]
     ops = []
@@ -186,7 +191,7 @@ def gen1(rng):
     for _ in range(rng.randint(6, 14)):
         k = rng.choice(pool)
         if k == "getitem_absent":
-            ops.append(("getitem", rng.choice(["DoubleBass", "Keyboard", "GHLCoop"])))
+            ops.append(("getitem", rng.choice(INSTRUMENTS())))      # any of the ten: mostly absent, sometimes a second-player part
         elif k == "getitem_present":
             ops.append(("getitem", "Single"))
         elif k == "nps_ok":
@@ -194,7 +199,7 @@ def gen1(rng):
         elif k == "nps_time":
             ops.append(("nps", "Single", "Expert", ("time", 0), ("time", 10 ** 7)))
         elif k == "nps_fail_instr":
-            ops.append(("nps", rng.choice(["DoubleBass", "GHLGuitar"]), "Expert", None, None))
+            ops.append(("nps", rng.choice(INSTRUMENTS()), rng.choice(["Expert", "Hard", "Easy"]), None, None))
         elif k == "nps_fail_diff":
             ops.append(("nps", "Single", "Easy", None, None))
         elif k == "nps_noteless":
@@ -209,8 +214,18 @@ def gen1(rng):
             ops.append(("querynoopt", rng.randint(0, 2000)))
         else:
             ops.append((k,))
+    # every sequence looks every instrument up once (sweep at a random position), and asks each for a rate once
+    sweep = [("getitem", i) for i in INSTRUMENTS()]
+    rng.shuffle(sweep)
+    at = rng.randint(0, len(ops))
+    ops[at:at] = sweep[:rng.choice([10, 10, 5])]
     ops.append(("eqtwin",))
     return text, ops
+
+
+def INSTRUMENTS():
+    from . import C06 as c06
+    return c06.instr_diff()[0]
 
 
 def text_flags(lines):
